@@ -22,7 +22,7 @@ def classify(text, root, err):
             return 'F21'
         if parent == 'speechGroup' and tag == 'from':
             return 'F38'
-        if parent in ('listIntroduction', 'listWrapUp') and re.search(r'^[ \t]*FOOTNOTE [^ \n]', text, re.M):
+        if parent in ('listIntroduction', 'listWrapUp') and re.search(r'^[ \t]*FOOTNOTE +[^ \n]', text, re.M):
             # the grammar admits only a line and footnotes there, so a block child can only be
             # the unwrapped content of a footnote that no reference claimed
             return 'F39'
@@ -32,7 +32,9 @@ def classify(text, root, err):
             return 'F26'
         if tag == 'crossHeading' and parent == 'embeddedStructure':
             return 'F18'
-        if tag in HIER_TAGS and parent not in HIER_TAGS and re.search(r'^[ \t]*FOOTNOTE [^ \n]', text, re.M):
+        if tag == 'crossHeading' and parent == 'authorialNote':
+            return 'F41'
+        if tag in HIER_TAGS and parent not in HIER_TAGS and re.search(r'^[ \t]*FOOTNOTE +[^ \n]', text, re.M):
             return 'F6'
     if k == 'missing-child':
         if BARE_LT.search(text):
@@ -61,6 +63,7 @@ def cases(ctx, n):
         else:
             t = gen.mutate(rng, gen.doc_text(rng, root, attrs_p=0.0)).replace('{', '').replace('}', '')
         out.append((t, root, ''))
+    out += [(t, r, '') for _, t, r in gen.pairwise_docs()]   # every construct inside every context
     return out
 
 
